@@ -1251,10 +1251,77 @@ impl Trailer {
             trailer.mac = Some(block5[start + 5..start + end].to_string());
         }
 
-        // More complex parsing for structured tags can be added here
-        // For now, implementing basic tag extraction
+        // Structured tags: [time][reference], all parts optional except in MRF
+        if let Some(value) = Self::tag_value(block5, "PDE") {
+            trailer.possible_duplicate_emission = Some(PossibleDuplicateEmission {
+                time: value.get(0..4).map(str::to_string),
+                message_input_reference: value
+                    .get(4..)
+                    .and_then(UserHeader::parse_message_input_reference),
+            });
+        }
+
+        if let Some(value) = Self::tag_value(block5, "MRF")
+            && let (Some(date), Some(full_time), Some(mir)) = (
+                value.get(0..6),
+                value.get(6..10),
+                value
+                    .get(10..)
+                    .and_then(UserHeader::parse_message_input_reference),
+            )
+        {
+            trailer.message_reference = Some(MessageReference {
+                date: date.to_string(),
+                full_time: full_time.to_string(),
+                message_input_reference: mir,
+            });
+        }
+
+        if let Some(value) = Self::tag_value(block5, "PDM") {
+            trailer.possible_duplicate_message = Some(PossibleDuplicateMessage {
+                time: value.get(0..4).map(str::to_string),
+                message_output_reference: value
+                    .get(4..)
+                    .and_then(UserHeader::parse_message_input_reference)
+                    .map(|mir| MessageOutputReference {
+                        date: mir.date,
+                        lt_identifier: mir.lt_identifier,
+                        branch_code: mir.branch_code,
+                        session_number: mir.session_number,
+                        sequence_number: mir.sequence_number,
+                    }),
+            });
+        }
+
+        if let Some(value) = Self::tag_value(block5, "SYS") {
+            trailer.system_originated_message = Some(SystemOriginatedMessage {
+                time: value.get(0..4).map(str::to_string),
+                message_input_reference: value
+                    .get(4..)
+                    .and_then(UserHeader::parse_message_input_reference),
+            });
+        }
 
         Ok(trailer)
+    }
+
+    /// The value of `{TAG:value}` in block 5, if the tag is present
+    fn tag_value<'a>(block5: &'a str, tag: &str) -> Option<&'a str> {
+        let marker = format!("{{{tag}:");
+        let start = block5.find(&marker)?;
+        let end = block5[start..].find('}')?;
+        Some(&block5[start + marker.len()..start + end])
+    }
+
+    /// A message input / output reference as it stands in a tag value
+    fn reference_text(
+        date: &str,
+        lt_identifier: &str,
+        branch_code: &str,
+        session_number: &str,
+        sequence_number: &str,
+    ) -> String {
+        format!("{date}{lt_identifier}{branch_code}{session_number}{sequence_number}")
     }
 }
 
@@ -1276,13 +1343,72 @@ impl std::fmt::Display for Trailer {
 
         if let Some(ref possible_duplicate_emission) = self.possible_duplicate_emission {
             result.push_str(&format!(
-                "{{PDE:{}}}",
-                possible_duplicate_emission.time.as_deref().unwrap_or("")
+                "{{PDE:{}{}}}",
+                possible_duplicate_emission.time.as_deref().unwrap_or(""),
+                possible_duplicate_emission
+                    .message_input_reference
+                    .as_ref()
+                    .map(|r| Self::reference_text(
+                        &r.date,
+                        &r.lt_identifier,
+                        &r.branch_code,
+                        &r.session_number,
+                        &r.sequence_number
+                    ))
+                    .unwrap_or_default()
             ));
         }
 
         if let Some(ref message_reference) = self.message_reference {
-            result.push_str(&format!("{{MRF:{}}}", message_reference.date));
+            let r = &message_reference.message_input_reference;
+            result.push_str(&format!(
+                "{{MRF:{}{}{}}}",
+                message_reference.date,
+                message_reference.full_time,
+                Self::reference_text(
+                    &r.date,
+                    &r.lt_identifier,
+                    &r.branch_code,
+                    &r.session_number,
+                    &r.sequence_number
+                )
+            ));
+        }
+
+        if let Some(ref possible_duplicate_message) = self.possible_duplicate_message {
+            result.push_str(&format!(
+                "{{PDM:{}{}}}",
+                possible_duplicate_message.time.as_deref().unwrap_or(""),
+                possible_duplicate_message
+                    .message_output_reference
+                    .as_ref()
+                    .map(|r| Self::reference_text(
+                        &r.date,
+                        &r.lt_identifier,
+                        &r.branch_code,
+                        &r.session_number,
+                        &r.sequence_number
+                    ))
+                    .unwrap_or_default()
+            ));
+        }
+
+        if let Some(ref system_originated_message) = self.system_originated_message {
+            result.push_str(&format!(
+                "{{SYS:{}{}}}",
+                system_originated_message.time.as_deref().unwrap_or(""),
+                system_originated_message
+                    .message_input_reference
+                    .as_ref()
+                    .map(|r| Self::reference_text(
+                        &r.date,
+                        &r.lt_identifier,
+                        &r.branch_code,
+                        &r.session_number,
+                        &r.sequence_number
+                    ))
+                    .unwrap_or_default()
+            ));
         }
 
         if let Some(ref mac) = self.mac {
